@@ -23,6 +23,10 @@ def arm(root, mode, kill_at=-1, tear=0, logfd=-1, reqfd=-1, grantfd=-1, ident=0)
     lib().fsgate_arm(os.fsencode(os.path.realpath(root)), mode, kill_at, tear, logfd, reqfd, grantfd, ident)
 
 
+def thread_participant(ident, grantfd):
+    lib().fsgate_thread(ident, grantfd)
+
+
 def disarm():
     lib().fsgate_disarm()
 
